@@ -22,6 +22,17 @@ Definition sig_decodes (s : sig) : bool := match s with SBad => false | SBy _ _ 
 Definition sig_verifies (k : key) (msg : N) (s : sig) : bool :=
   match s with SBad => false | SBy k' m' => (k' =? k) && (m' =? msg) end.
 
+(** A bookkeeper entry of a header is a decoded key OBJECT.  [BkKey k]: the genuine key object of
+    key k.  [BkForged id]: any other object whose vconfig.PubkeyID is [id] - e.g. the uncompressed
+    wire form (X, Y+2) of a member's key: ec.DecodePublicKey does not check that an uncompressed
+    point is on its curve, and the id (compressed form: X and the parity of Y) is the member's.
+    Under such an object no signature verifies (core/signature.verify: a library panic counts as
+    "does not verify"); the driver re-checks that on every case. *)
+Inductive bkey := BkKey (k : key) | BkForged (id : key).
+Definition bk_id (b : bkey) : key := match b with BkKey k => k | BkForged i => i end.
+Definition bk_verifies (b : bkey) (msg : N) (s : sig) : bool :=
+  match b with BkKey k => sig_verifies k msg s | BkForged _ => false end.
+
 (** * signature.VerifyMultiSignature *)
 Inductive vms_res := VmsOk | VmsNotEnough | VmsBadSig | VmsFailed | VmsPanic.
 
@@ -30,7 +41,7 @@ Inductive vms_res := VmsOk | VmsNotEnough | VmsBadSig | VmsFailed | VmsPanic.
     [keys] or [mask] is Go's index-out-of-range panic. *)
 Inductive mark_res := MarkHit (mask : list bool) | MarkMiss | MarkPanic.
 
-Fixpoint mark_first (ok : key -> bool) (bound : nat) (keys : list key) (mask : list bool) : mark_res :=
+Fixpoint mark_first {A} (ok : A -> bool) (bound : nat) (keys : list A) (mask : list bool) : mark_res :=
   match bound with
   | O => MarkMiss
   | S b =>
@@ -45,7 +56,7 @@ Fixpoint mark_first (ok : key -> bool) (bound : nat) (keys : list key) (mask : l
   end.
 
 (** outer loop [for i := 0; i < m; i++] over sigs[i]. *)
-Fixpoint vms_loop (msg : N) (bound : nat) (keys : list key) (mask : list bool) (sigs : list sig) (m : nat) : vms_res :=
+Fixpoint vms_loop (msg : N) (bound : nat) (keys : list bkey) (mask : list bool) (sigs : list sig) (m : nat) : vms_res :=
   match m with
   | O => VmsOk
   | S m' =>
@@ -53,7 +64,7 @@ Fixpoint vms_loop (msg : N) (bound : nat) (keys : list key) (mask : list bool) (
     | [] => VmsPanic
     | s :: rest =>
       if negb (sig_decodes s) then VmsBadSig else
-      match mark_first (fun k => sig_verifies k msg s) bound keys mask with
+      match mark_first (fun b => bk_verifies b msg s) bound keys mask with
       | MarkHit mask' => vms_loop msg bound keys mask' rest m'
       | MarkMiss => VmsFailed
       | MarkPanic => VmsPanic
@@ -61,7 +72,7 @@ Fixpoint vms_loop (msg : N) (bound : nat) (keys : list key) (mask : list bool) (
     end
   end.
 
-Definition verify_multi (msg : N) (keys : list key) (m : Z) (sigs : list sig) : vms_res :=
+Definition verify_multi (msg : N) (keys : list bkey) (m : Z) (sigs : list sig) : vms_res :=
   let nkeys := Z.of_nat (length keys) in
   if (vms_enough_lhs (Z.of_nat (length sigs)) <? vms_enough_rhs m)%Z then VmsNotEnough
   else vms_loop msg (Z.to_nat (vms_inner_bound nkeys)) keys
@@ -77,7 +88,7 @@ Record blkinfo := { bi_last : N; bi_newcfg : option chaincfg }.
     a JSON VbftBlockInfo. *)
 Record header := {
   h_height : N; h_prev : N; h_time : N; h_info : option blkinfo;
-  h_bks : list key; h_sigs : list sig; h_hash : N }.
+  h_bks : list bkey; h_sigs : list sig; h_hash : N }.
 
 (** header cache + block store (by hash), header index (height -> hash), vbftPeerInfoMap
     (height -> set of peer ids), current header height. *)
@@ -134,8 +145,8 @@ Definition check_quorum (peers : list key) (c : N) (h : header) : vres :=
   let n := Z.of_nat (length peers) in
   let m := hs_vbft_m n in
   if (hs_vbft_listed_lhs (Z.of_nat (length (h_bks h))) <? hs_vbft_listed_rhs m)%Z then EFewListed else
-  if negb (forallb (fun k => memk k peers) (h_bks h)) then ENonMember else
-  if (hs_vbft_distinct_lhs (Z.of_nat (length (dedup (h_bks h))))
+  if negb (forallb (fun b => memk (bk_id b) peers) (h_bks h)) then ENonMember else
+  if (hs_vbft_distinct_lhs (Z.of_nat (length (dedup (map bk_id (h_bks h)))))
         <? (hs_vbft_distinct_rhs (Z.of_N c)) mod (Z.of_N two32))%Z then EFewDistinct else
   match verify_multi (h_hash h) (h_bks h) (hs_vbft_vms_m m) (h_sigs h) with
   | VmsOk => ROk None
